@@ -389,8 +389,10 @@ def probe_variant():
 # =====================================================================================================
 # Tie B: generated histories
 # =====================================================================================================
-REQUIRED_THEOREMS = ['CfVerif.C06.gen_variant_is_repaired', 'CfVerif.C06.quiescent_lock_free', 'CfVerif.C06.never_blocks',
-                     'CfVerif.C06.d9_lock_left_held', 'CfVerif.C06.d9_wedged']
+REQUIRED_THEOREMS = ['CfVerif.C06.' + t for t in (
+    'gen_variant_is_repaired', 'quiescent_lock_free', 'never_blocks', 'writes_once_in_order', 'writes_at_most_once',
+    'write_notified_queued_or_superseded', 'reads_exactly_once', 'disconnect_leaves_no_record', 'state_stays_wellformed',
+    'd9_lock_left_held', 'd9_wedged')]
 TRUSTED = ['harness/corr/c06.py extractor + correspondence (fake `cf` object: add_port_callback, disconnected, send_packet '
            'with the size check of Crazyflie.send_packet; CheckedLock turns a blocking acquire of a held lock into `hang`)',
            'environment model Spec/C06 (device memory, reply layout) written from protocol knowledge',
